@@ -126,6 +126,8 @@ static int state_diff (const char *base, const char *now, int direct_only, char 
   }
 }
 
+static int tainted_flag;
+static char base_state[STATE_MAX], now_state[STATE_MAX];
 /* ------------------------------------------------------------------ one compile */
 typedef struct {
   int have_prog, nerr, escaped, problems, nfun, nvar;
@@ -170,6 +172,16 @@ static void compile_input (const char *name, const unsigned char *text, size_t l
       struct largs l;
       snprintf (inh, sizeof inh, "%s", inherit_file);
       FREE (inherit_file); inherit_file = 0;
+      if (base_state[0]) {
+        /* compile_file() has returned (the parser accepted at the inherit statement): nothing of this pass may be left either */
+        char field[120], detail[500], key[220];
+        capture_state (now_state);
+        if (state_diff (base_state, now_state, 1, field, sizeof field, detail, sizeof detail)) {
+          snprintf (key, sizeof key, "C02:residual:%s", field);
+          vx_fail (key, "%s: left behind by the pass that stopped at an inherit of a program that was not loaded yet: %s", name, detail);
+          tainted_flag = 1;
+        }
+      }
       if (a.prog) free_prog (a.prog, 1);
       l.name = inh; l.ob = 0;
       if (hx_guard (do_load, &l) || !l.ob) {
@@ -197,7 +209,6 @@ static void compile_input (const char *name, const unsigned char *text, size_t l
 /* ------------------------------------------------------------------ baseline (computed in the parent) */
 static unsigned char *probe_text; static size_t probe_len;
 static outcome_t base_probe;
-static char base_state[STATE_MAX], now_state[STATE_MAX];
 
 static void first_problem (const char *dump, char *out, size_t n) {
   const char *p = strstr (dump, "!! ");
@@ -284,7 +295,9 @@ static void check_after_input (outcome_t *o, const char *what) {
 
 static void run_input (const unsigned char *text, size_t len, int mode, const char *label) {
   outcome_t o;
+  tainted_flag = 0;
   compile_input ("c02/in.c", text, len, mode, &o, 0);
+  if (tainted_flag) tainted ();
   if (verbose) vx_obs ("%s -> prog=%d nerr=%d esc=%d hash=%llx msg=%.300s", label, o.have_prog, o.nerr, o.escaped, (unsigned long long) o.hash, o.msg);
   check_after_input (&o, label);
   if (probe_every == 1 || (vx_enum_index () % probe_every) == 0 || vx_replaying ()) check_probe (label);
